@@ -109,91 +109,89 @@ Proof.
 Qed.
 Print Assumptions C10_psi.
 
-(** ** Jensen-Shannon
+(** ** Jensen-Shannon and Kullback-Leibler (code after the repair 5e463cd: the [num_bins] points span
+       both histogram supports, i.e. the pooled sample range, except that a constant sample [c] has
+       the support [c-1/2, c+1/2]).
 
-    (* FULL: for all non-empty samples X, Y with their NumPy auto-histograms hX, hY and all
-       num_bins >= 2:  exists v, js_dist nb hX hY X Y = Fin v /\ 0 <= v <= sqrt (ln 2), and
-       js_dist nb hX hX X X = Fin 0. *)
-    The full statement is FALSE of the code when both samples are constant and equal
-    ([C10_js_nan_refuted], finding F29).  Proved: the formula-level statement for any two mass
-    vectors that are non-negative with positive totals (which is what the discretised histogram
-    CDFs produce when the pooled range is non-empty), symmetry and order independence at sample
-    level.  Missing for the sample-level range: the contract of the oracle
-    [np.histogram(bins="auto")] (sorted edges spanning [min, max] of the sample, non-negative
-    counts) and monotonicity of the interpolated CDF, which give the mass hypotheses. *)
-Theorem C10_js_partial :
-  (forall P Q : list R, nonneg P -> nonneg Q -> length P = length Q ->
-     0 < sumA (A:=RealA) P -> 0 < sumA (A:=RealA) Q ->
-     exists v : R, js_f (A:=RealA) P Q = Fin v /\ 0 <= v /\ v <= sqrt (ln 2)) /\
-  (forall P : list R, nonneg P -> 0 < sumA (A:=RealA) P -> js_f (A:=RealA) P P = Fin 0) /\
-  (forall (nb : nat) (hX hY : list Z * list R) (X Y : list R),
-     js_dist (A:=RealA) nb hX hY X Y = js_dist (A:=RealA) nb hY hX Y X) /\
-  (forall (nb : nat) (hX hY : list Z * list R) (X X' Y Y' : list R), Permutation X X' -> Permutation Y Y' ->
-     js_dist (A:=RealA) nb hX hY X Y = js_dist (A:=RealA) nb hX hY X' Y') /\
-  (forall (nb : nat) (hX hY : list Z * list R) (X Y : list R),
-     let P := masses (A:=RealA) (fst hX) (snd hX) (pooled_points (A:=RealA) X Y nb) in
-     let Q := masses (A:=RealA) (fst hY) (snd hY) (pooled_points (A:=RealA) X Y nb) in
-     nonneg P -> nonneg Q -> 0 < sumA (A:=RealA) P -> 0 < sumA (A:=RealA) Q ->
-     exists v : R, js_dist (A:=RealA) nb hX hY X Y = Fin v /\ 0 <= v /\ v <= sqrt (ln 2)).
+    (* FULL: for all non-empty samples X, Y, all num_bins >= 2, with hX = np.histogram(X, "auto"),
+       hY = np.histogram(Y, "auto"):  JS in [0, sqrt (ln 2)], JS(X,X) = 0, JS symmetric,
+       KL(test||reference) in [0, +inf], KL(X,X) = 0. *)
+    Proved in full for every pair of histograms satisfying the contract [valid_hist] (as many
+    edges as counts plus one, strictly increasing edges, non-negative counts with a positive
+    total) — what [np.histogram(bins="auto")] returns for a non-empty finite sample.  "Partial"
+    only in that NumPy's auto rule is an oracle input with this contract, not a modelled function
+    of the sample (so independence of sample order is the oracle's, checked on the code by the
+    harness).  Key steps: the interpolated histogram CDF is monotone, so the masses are >= 0;
+    both supports lie inside the discretised range, so each mass vector totals exactly 1; Gibbs'
+    inequality [ln x <= x - 1] for the lower bounds, [p ln (p/m) <= p ln 2] for the upper one. *)
+Theorem C10_js_partial : forall (nb : nat) (hX hY : list Z * list R), valid_hist hX -> valid_hist hY -> (2 <= nb)%nat ->
+  (exists v : R, js_dist (A:=RealA) nb hX hY = Fin v /\ 0 <= v /\ v <= sqrt (ln 2)) /\
+  js_dist (A:=RealA) nb hX hX = Fin 0 /\
+  js_dist (A:=RealA) nb hX hY = js_dist (A:=RealA) nb hY hX.
 Proof.
-  split; [exact js_range|]. split; [exact js_self|]. split; [exact js_dist_sym|].
-  split; [exact js_dist_perm | exact js_dist_range].
+  intros nb hX hY VX VY Hnb. split; [apply js_dist_range; auto|]. split; [apply js_dist_self; auto | apply js_dist_sym].
 Qed.
 Print Assumptions C10_js_partial.
 
-(** JS is nan exactly when one of the two mass vectors totals 0 ... *)
-Theorem C10_js_nan_iff : forall P Q : list R, nonneg P -> nonneg Q ->
-  (js_f (A:=RealA) P Q = NaN <-> sumA (A:=RealA) P = 0 \/ sumA (A:=RealA) Q = 0).
-Proof. exact js_nan_iff. Qed.
-Print Assumptions C10_js_nan_iff.
+(** [kl_dist nb hX hY] = KL(test hY || reference hX) = sum q ln (q/p): never nan, +inf exactly when
+    some test mass is positive where the reference mass is 0, otherwise >= 0; 0 on equal histograms *)
+Theorem C10_kl_partial : forall (nb : nat) (hX hY : list Z * list R), valid_hist hX -> valid_hist hY -> (2 <= nb)%nat ->
+  (kl_dist (A:=RealA) nb hX hY = PInf \/ exists v : R, kl_dist (A:=RealA) nb hX hY = Fin v /\ 0 <= v) /\
+  kl_dist (A:=RealA) nb hX hX = Fin 0.
+Proof. intros nb hX hY VX VY Hnb. split; [apply kl_dist_nonneg; auto | apply kl_dist_self; auto]. Qed.
+Print Assumptions C10_kl_partial.
 
-(** ... which happens for EVERY pair of constant, equal samples, whatever the histograms and
-    [num_bins] (F29): the pooled range is empty, all points of the linspace coincide, every
-    CDF difference is 0, and [jensenshannon] divides 0 by 0.  In particular d(X,X) is nan,
-    not 0, for a constant X. *)
-Theorem C10_js_nan_refuted : forall (nb : nat) (hX hY : list Z * list R) (X Y : list R) (c : R),
-  X <> [] -> Y <> [] -> (forall x, In x X -> x = c) -> (forall y, In y Y -> y = c) ->
-  js_dist (A:=RealA) nb hX hY X Y = NaN.
-Proof. exact js_dist_const_nan. Qed.
-Print Assumptions C10_js_nan_refuted.
-
-(** ** Kullback-Leibler: [kl = sum rel_entr(test masses, reference masses)] = KL(test || reference),
-       +inf exactly when some test mass is positive where the reference mass is 0.
-
-    (* FULL: for all samples, kl_dist nb hX hY X Y is +inf or Fin v with 0 <= v. *)
-    FALSE of the code ([C10_kl_nonneg_refuted]): the masses are not normalised and a constant
-    test sample keeps only part of its mass inside the pooled range.  Proved: Gibbs' inequality
-    in the form  KL >= (total test mass) - (total reference mass)  for all mass vectors, hence
-    KL >= 0 whenever the test masses total at least the reference masses (both total 1 for
-    non-constant samples); KL(P||P) = 0; the characterisation of +inf; order independence. *)
-Theorem C10_kl_partial :
+(** the formulas on arbitrary mass vectors: ranges, Gibbs' bound KL >= total(test) - total(reference),
+    characterisation of +inf and of nan *)
+Theorem C10_js_kl_formulas :
+  (forall P Q : list R, nonneg P -> nonneg Q -> length P = length Q ->
+     0 < sumA (A:=RealA) P -> 0 < sumA (A:=RealA) Q ->
+     exists v : R, js_f (A:=RealA) P Q = Fin v /\ 0 <= v /\ v <= sqrt (ln 2)) /\
+  (forall P Q : list R, nonneg P -> nonneg Q ->
+     (js_f (A:=RealA) P Q = NaN <-> sumA (A:=RealA) P = 0 \/ sumA (A:=RealA) Q = 0)) /\
   (forall Pref Qtest : list R, nonneg Pref -> nonneg Qtest -> length Pref = length Qtest ->
      forall v : R, kl_f (A:=RealA) Pref Qtest = Fin v -> sumA (A:=RealA) Qtest - sumA (A:=RealA) Pref <= v) /\
-  (forall Pref Qtest : list R, nonneg Pref -> nonneg Qtest -> length Pref = length Qtest ->
-     sumA (A:=RealA) Pref <= sumA (A:=RealA) Qtest ->
-     kl_f (A:=RealA) Pref Qtest = PInf \/ exists v : R, kl_f (A:=RealA) Pref Qtest = Fin v /\ 0 <= v) /\
-  (forall P : list R, nonneg P -> kl_f (A:=RealA) P P = Fin 0) /\
   (forall Pref Qtest : list R, nonneg Pref -> nonneg Qtest ->
      (kl_f (A:=RealA) Pref Qtest = PInf <->
       exists i : nat, (i < length Pref)%nat /\ (i < length Qtest)%nat /\ 0 < nth i Qtest 0 /\ nth i Pref 0 = 0)) /\
-  (forall Pref Qtest : list R, kl_f (A:=RealA) Pref Qtest <> NaN) /\
-  (forall (nb : nat) (hX hY : list Z * list R) (X X' Y Y' : list R), Permutation X X' -> Permutation Y Y' ->
-     kl_dist (A:=RealA) nb hX hY X Y = kl_dist (A:=RealA) nb hX hY X' Y').
+  (forall Pref Qtest : list R, kl_f (A:=RealA) Pref Qtest <> NaN).
 Proof.
-  split; [exact kl_lower|]. split; [exact kl_nonneg|]. split; [exact kl_self|].
-  split; [exact kl_inf_iff|]. split; [exact kl_not_nan | exact kl_dist_perm].
+  split; [exact js_range|]. split; [exact js_nan_iff|]. split; [exact kl_lower|].
+  split; [exact kl_inf_iff | exact kl_not_nan].
 Qed.
-Print Assumptions C10_kl_partial.
+Print Assumptions C10_js_kl_formulas.
 
-(** reference [0, 1/2] (any histogram on [0, 1/2]), test sample the constant 0 (NumPy's
-    histogram: one bin [-1/2, 1/2]), num_bins = 2: the test mass inside the pooled range
-    [0, 1/2] is 1/2, the reference mass is 1, and KL = (1/2) ln (1/2) < 0. *)
-Theorem C10_kl_nonneg_refuted :
+(** each discretised mass vector is a probability vector: this is what the repair guarantees *)
+Theorem C10_masses_are_distributions : forall (nb : nat) (hX hY : list Z * list R), valid_hist hX -> valid_hist hY -> (2 <= nb)%nat ->
+  let pts := support_points (A:=RealA) (snd hX) (snd hY) nb in
+  isdist (masses (A:=RealA) (fst hX) (snd hX) pts) /\ isdist (masses (A:=RealA) (fst hY) (snd hY) pts) /\
+  length (masses (A:=RealA) (fst hX) (snd hX) pts) = length (masses (A:=RealA) (fst hY) (snd hY) pts).
+Proof. exact masses_valid. Qed.
+Print Assumptions C10_masses_are_distributions.
+
+(** two equal constant samples of any sizes [n], [m] (NumPy's histogram: one bin [c-1/2, c+1/2]):
+    JS = 0 and KL = 0 (finding F29, repaired) *)
+Theorem C10_js_kl_constant_equal : forall (nb : nat) (n m : Z) (c : R), (0 < n)%Z -> (0 < m)%Z -> (2 <= nb)%nat ->
+  js_dist (A:=RealA) nb (const_hist n c) (const_hist m c) = Fin 0 /\
+  kl_dist (A:=RealA) nb (const_hist n c) (const_hist m c) = Fin 0.
+Proof. exact js_kl_const_equal. Qed.
+Print Assumptions C10_js_kl_constant_equal.
+
+(** *** the definitions BEFORE the repair ([js_dist_pre], [kl_dist_pre]: points spanning the pooled
+        sample range) violate the property — kept as documentation of findings F29 and F31:
+        JS is nan (0/0) for EVERY pair of constant equal samples, whatever the histograms ... *)
+Example C10_pre_repair_js_nan : forall (nb : nat) (hX hY : list Z * list R) (X Y : list R) (c : R),
+  X <> [] -> Y <> [] -> (forall x, In x X -> x = c) -> (forall y, In y Y -> y = c) ->
+  js_dist_pre (A:=RealA) nb hX hY X Y = NaN.
+Proof. exact js_pre_const_nan. Qed.
+(** ... and KL is negative for a constant test sample: reference [0, 1/2], test sample the
+    constant 0 (histogram [-1/2, 1/2]), num_bins = 2: test mass inside the pooled range 1/2,
+    reference mass 1, KL = (1/2) ln (1/2) < 0 *)
+Example C10_pre_repair_kl_negative :
   let X := [0; 1/2] in let hX := ([1%Z; 1%Z], [0; 1/4; 1/2]) in
   let Y := [0] in let hY := ([1%Z], [-1/2; 1/2]) in
-  exists v : R, kl_dist (A:=RealA) 2 hX hY X Y = Fin v /\ v < 0.
-Proof. exact kl_negative_witness. Qed.
-Print Assumptions C10_kl_nonneg_refuted.
+  exists v : R, kl_dist_pre (A:=RealA) 2 hX hY X Y = Fin v /\ v < 0.
+Proof. exact kl_pre_negative_witness. Qed.
 
 (** ** EMD (1-D Wasserstein-1) and energy distance: the sorted-pooled-values algorithm
        [sum g(F_X(z_i) - F_Y(z_i)) (z_{i+1} - z_i)] over the pooled order statistics.
@@ -258,20 +256,44 @@ Example C10_nonvacuous_transport :
 Proof. vm_compute. reflexivity. Qed.
 
 (** F29 and the negative KL on the executable (binary64) model, i.e. on what is compared with
-    the code: constant equal samples give NaN; reference [0, 1/2] vs constant test 0 gives
-    KL = -0.3465... = (1/2) ln (1/2) *)
+    the code: with the pre-repair points, constant equal samples give NaN and reference [0, 1/2]
+    vs constant test 0 gives KL = -0.3465... = (1/2) ln (1/2); with the repaired points both are
+    proper values (0 for the equal constant samples, +inf for the second pair: the test histogram
+    has mass on [-1/2, 0) where the reference has none) *)
 Example C10_refuted_on_floats :
-  match js_dist (A:=FloatA) 10 ([3%Z], [1; 2]) ([2%Z], [1; 2]) [1.5; 1.5; 1.5] [1.5; 1.5] with
+  match js_dist_pre (A:=FloatA) 10 ([3%Z], [1; 2]) ([2%Z], [1; 2]) [1.5; 1.5; 1.5] [1.5; 1.5] with
   | NaN => true
   | _ => false
   end = true /\
-  match kl_dist (A:=FloatA) 2 ([1%Z; 1%Z], [0; 0.25; 0.5]) ([1%Z], [-0.5; 0.5]) [0; 0.5] [0] with
+  match kl_dist_pre (A:=FloatA) 2 ([1%Z; 1%Z], [0; 0.25; 0.5]) ([1%Z], [-0.5; 0.5]) [0; 0.5] [0] with
   | Fin v => PrimFloat.ltb v (-0.34)
   | _ => false
+  end = true /\
+  match js_dist (A:=FloatA) 10 ([3%Z], [1; 2]) ([2%Z], [1; 2]) with
+  | Fin v => PrimFloat.eqb v 0
+  | _ => false
+  end = true /\
+  match kl_dist (A:=FloatA) 2 ([1%Z; 1%Z], [0; 0.25; 0.5]) ([1%Z], [-0.5; 0.5]) with
+  | PInf => true
+  | _ => false
   end = true.
-Proof. split; vm_compute; reflexivity. Qed.
+Proof. repeat split; vm_compute; reflexivity. Qed.
 
-(** the mass hypotheses of [C10_js_partial] are satisfiable: two probability vectors *)
+(** the contract [valid_hist] is satisfiable (a 2-bin and a 3-bin histogram) and the distances
+    are non-trivial on it *)
+Example C10_nonvacuous_valid_hist :
+  valid_hist ([3%Z; 1%Z], [0; 1; 2]%R) /\ valid_hist ([1%Z; 0%Z; 2%Z], [1/2; 1; 3/2; 2]%R) /\
+  match js_dist (A:=FloatA) 5 ([3%Z; 1%Z], [0; 1; 2]) ([1%Z; 0%Z; 2%Z], [0.5; 1; 1.5; 2]) with
+  | Fin v => (PrimFloat.ltb 0.1 v && PrimFloat.ltb v 0.8)%bool
+  | _ => false
+  end = true.
+Proof.
+  split; [|split]; [| |vm_compute; reflexivity]; unfold valid_hist; cbn [fst snd length];
+    (split; [reflexivity|]); (split; [discriminate|]); (split; [|split; [repeat constructor; lia | cbn; lia]]);
+    intros i Hi; repeat (destruct i as [|i]; [cbn; lra|]); lia.
+Qed.
+
+(** the mass hypotheses of [C10_js_kl_formulas] are satisfiable: two probability vectors *)
 Example C10_nonvacuous_js : exists v : R,
   js_f (A:=RealA) [1/2; 1/2]%R [1/4; 3/4]%R = Fin v /\ (0 <= v)%R /\ (v <= sqrt (ln 2))%R.
 Proof.
